@@ -68,7 +68,7 @@ TReset == /\ ln <= Len(Trace) /\ E.a = "reset" /\ ln' = ln + 1 /\ skip' = FALSE 
           /\ hunt' = [m \in Targets |-> NoIP] /\ loops' = <<>> /\ closed' = FALSE
           /\ offer' = [m \in Targets |-> NoIP] /\ hostOf' = [ip \in LanIPs |-> NilMAC] /\ pend' = [m \in Targets |-> <<>>] /\ captured' = {} /\ out' = <<>> /\ ev' = [kind |-> "init"]
           /\ refHunt' = {} /\ refClosed' = FALSE /\ refOffer' = [m \in Targets |-> NoIP]
-          /\ rl' = <<>> /\ poisoned' = [m \in Targets |-> FALSE] /\ pre' = NoPre
+          /\ rl' = <<>> /\ poisoned' = [m \in Targets |-> "ok"] /\ pre' = NoPre
 
 TStart == /\ (IsEvent("start") \/ IsEvent("rt.start")) /\ E.mac \in MacU /\ E.ip \in IpU
           /\ Do(StartHuntM(E.mac, E.ip),
